@@ -63,6 +63,8 @@ EXPECTED_LEVELS = {
     "plain": ["Portable", "SSE2", "SSE41", "AVX2", "AVX512"],
     "nostd": ["Portable", "SSE2", "SSE41", "AVX2", "AVX512"],
     "pure": ["Portable", "SSE2", "SSE41", "AVX2"],
+    "max_sse41": ["Portable", "SSE2", "SSE41"],
+    "portable_only": ["Portable"],
     "stock": ["AVX512"],
     "stock_no_avx512": ["AVX2"],
     "stock_no_avx2": ["SSE41"],
